@@ -28,6 +28,15 @@ func HarnessCoalescedPair() {
 	reqA := newReq("GET", "o.test", "/c", "", nil)
 	reqB := newReq("GET", "o.test", "/c", "", nil)
 	key := cache.MakeFromRequest(reqA)
+	// pre-state of the key: cold, or (cacheable outcome only) already stored and fresh
+	primed := outcome == 0 && symChoice(2) == 1
+	if primed {
+		vClockFreeze(true)
+		c0 := e.plain(newReq("GET", "o.test", "/c", "", nil))
+		vAssert(c0.status == 200, "c05.priming-failed")
+		e.o.seen = nil
+		vReach("fresh-key")
+	}
 	vClockFreeze(true)
 	now := time.Now()
 	// hand-over window action
@@ -92,7 +101,10 @@ func HarnessCoalescedPair() {
 			vAssert(rb.Cached.Entry.Data != leaderShared.Cached.Entry.Data || leaderShared.Cached.Entry.Data == nil, "c05.follower-uses-the-shared-handle")
 		}
 	}
-	if outcome == 0 && window == 0 {
+	if primed && window == 0 {
+		vAssert(len(e.o.seen) == 0, "c05.fresh-entry-refetched")
+	}
+	if outcome == 0 && window == 0 && !primed {
 		vAssert(len(e.o.seen) == 1, "c05.coalesced-fetch-hit-origin-more-than-once")
 		vAssert(string(ba) == "BODY" && string(bb) == "BODY", "c05.coalesced-body-differs")
 	}
